@@ -23,6 +23,7 @@ def aEv : List String → Option AioClient.Ev
   | ["unsub", c] => do some (.unsub (← unhex c))
   | ["pub", c, p] => do some (.pub (← unhex c) (← unhex p))
   | ["read"] => some .read
+  | ["read", "next"] => some .read        -- `async for` / __anext__: the same read() while the session is open
   | ["close"] => some .close
   | ["accept"] => some .accept
   | ["refuse"] => some .refuse
